@@ -1,0 +1,425 @@
+//go:build verif
+
+// Contracts for package internal, checked by /verif/bin/govc (see /verif/DESIGN.md).
+// This file contains comments only: with the `verif` tag off it is not part of
+// the package; with it on it adds no code.
+package internal
+
+// ---- byte classes (C03) -----------------------------------------------------
+//@ func isHexDigit
+//@   property C03
+//@   pure
+//@   ensures result == ((c >= '0' && c <= '9') || (c >= 'A' && c <= 'F') || (c >= 'a' && c <= 'f'))  # name: exact
+
+//@ func fromHex
+//@   property C03
+//@   pure
+//@   ensures c >= '0' && c <= '9' ==> result == c - '0'            # name: digit
+//@   ensures c >= 'a' && c <= 'f' ==> result == c - 'a' + 10       # name: lower
+//@   ensures c >= 'A' && c <= 'F' ==> result == c - 'A' + 10       # name: upper
+//@   ensures result <= 15                                          # name: nibble
+
+//@ func isStaleErrorAllowed
+//@   property C13
+//@   pure
+//@   ensures result == (code == 500 || code == 502 || code == 503 || code == 504)   # name: exact
+
+//@ func IsNonErrorStatus
+//@   property C07
+//@   pure
+//@   ensures result == (status >= 200 && status < 400)   # name: exact
+
+// ---- shared spec vocabulary ---------------------------------------------------
+// deltaNanos: RFC 9111 §1.2.2 delta-seconds in nanoseconds, saturating at the
+// largest representable duration (a value too large to represent never wraps).
+// Opaque outside RawDeltaSeconds.Value: consumers only need the lemmas below.
+//@ spec func deltaNanos(s string) time.Duration = ite(dec64(s) > maxI64/sec, maxI64, dec64(s)*sec) # opaque
+//@ lemma deltaNanos-range: forall s string :: deltaNanos(s) >= 0 && (dec64(s) >= 2147483648 ==> deltaNanos(s) >= 2147483648*sec) && (dec64(s) == 0 <==> deltaNanos(s) == 0)
+//@   reveal deltaNanos
+//@   property C01 C12
+//@ spec func validDelta(s string) bool = isDigits(s)
+// the Age field: invalid values are ignored (RFC 9111 §5.1)
+//@ spec func ageFieldLo(s string) time.Duration = ite(isDigits(s), deltaNanos(s), 0)
+// corrected_initial_age (RFC 9111 §4.2.3), saturating
+//@ spec func initialAge(ageS string, date time.Time, reqT time.Time, respT time.Time) time.Duration = max(max(tsub(respT, date), 0), satadd(ageFieldLo(ageS), max(tsub(respT, reqT), 0)))
+// current_age at clock reading t
+//@ spec func ageAt(a0 time.Duration, respT time.Time, t time.Time) time.Duration = satadd(a0, max(tsub(t, respT), 0))
+//@ spec func dateOf(h http.Header) time.Time = ite(validHTTPTime(hget(h, "Date")), httpTime(hget(h, "Date")), zeroTime())
+//@ spec func zeroTime() time.Time # smt
+//@ smt (define-fun zeroTime () O$time.Time zero$O$time.Time)
+
+//@ iface Clock.Now(c)
+//@   assigns now
+//@   ensures ns(now) >= ns(old(now)) && result == now
+//@ iface Clock.Since(c, t)
+//@   assigns now
+//@   ensures ns(now) >= ns(old(now)) && result == tsub(now, t)
+
+// ---- C01 / C12: delta-seconds ---------------------------------------------------
+//@ func (RawDeltaSeconds).Value
+//@   property C01 C12
+//@   pure
+//@   reveal deltaNanos
+//@   ensures isDigits(string(r)) ==> valid && dur == deltaNanos(string(r))                      # name: exact
+//@   ensures isDigits(string(r)) && dec64(string(r)) >= 2147483648 ==> valid && dur >= 2147483648*sec   # name: huge-is-at-least-2^31
+//@   ensures !isDigits(string(r)) ==> !valid                                                    # name: digits-only
+//@   ensures valid ==> dur >= 0                                                                 # name: nonneg
+//@   ensures !valid ==> dur == 0                                                                # name: zero-when-invalid
+//@   loop 0 invariant 0 <= i && i <= len(r) && (forall j int :: 0 <= j && j < i ==> r[j] >= '0' && r[j] <= '9')
+
+//@ func (RawTime).Value
+//@   property C01
+//@   pure
+//@   ensures valid == validHTTPTime(string(r))                   # name: valid-iff
+//@   ensures valid ==> t == httpTime(string(r))                  # name: value
+//@   ensures !valid ==> t == zeroTime()                          # name: zero-when-invalid
+
+// ---- C01 / C11 / C13: current age -------------------------------------------------
+//@ func calculateCurrentAge
+//@   property C01 C11 C13
+//@   requires clock != nil
+//@   let a0 = initialAge(hget(h, "Age"), date, requestTime, responseTime)
+//@   assigns now
+//@   fresh
+//@   ensures result != nil
+//@   ensures result.Value >= ageAt(a0, responseTime, old(now))                                                   # name: age-lower
+//@   ensures (isDigits(hget(h, "Age")) || hget(h, "Age") == "") ==> result.Value <= ageAt(a0, responseTime, result.Timestamp)   # name: age-upper
+//@   ensures result.Timestamp == now && ns(now) >= ns(old(now))                                                  # name: timestamp
+
+//@ func addDuration
+//@   property C01 C11 C13
+//@   pure
+//@   requires a >= 0 && b >= 0
+//@   ensures result == satadd(a, b)    # name: saturating
+
+// ---- Cache-Control accessors (C12 and every consumer) -------------------------------
+// A parsed Cache-Control field is seen as two arrays: directive name -> present,
+// directive name -> argument text. For a Go map m these are hasArr(m) / valArr(m);
+// for header text t they are dirsHas(t) / dirsVal(t) (the meaning of the text).
+//@ spec func dirsHas(t string) Arr[string, bool]
+//@ spec func dirsVal(t string) Arr[string, string]
+//@ spec func ccText(h http.Header) string = hget(h, "Cache-Control")
+//@ spec func ccValidA(hs Arr[string, bool], vs Arr[string, string], k string) bool = hs[k] && isDigits(vs[k])
+//@ spec func ccDurA(vs Arr[string, string], k string) time.Duration = deltaNanos(vs[k])
+//@ spec func ccValid(d map[string]string, k string) bool = ccValidA(hasArr(d), valArr(d), k)
+//@ spec func ccDur(d map[string]string, k string) time.Duration = ccDurA(valArr(d), k)
+
+//@ func hasToken
+//@   property C01 C02 C06 C12 C13 C18
+//@   pure
+//@   ensures result == has(d, token)                              # name: exact
+//@ func getDurationDirective
+//@   property C01 C02 C12 C13
+//@   pure
+//@   ensures valid == ccValid(d, token)                           # name: valid-iff
+//@   ensures valid ==> dur == ccDur(d, token)                     # name: value
+//@   ensures !valid ==> dur == 0                                  # name: zero-when-invalid
+//@ func (CCRequestDirectives).MaxAge
+//@   property C01 C02 C12
+//@   pure
+//@   ensures valid == ccValid(d, "max-age") && (valid ==> dur == ccDur(d, "max-age")) && (!valid ==> dur == 0)   # name: reads-max-age
+//@ func (CCRequestDirectives).MinFresh
+//@   property C01 C12
+//@   pure
+//@   ensures valid == ccValid(d, "min-fresh") && (valid ==> dur == ccDur(d, "min-fresh")) && (!valid ==> dur == 0)   # name: reads-min-fresh
+//@ func (CCRequestDirectives).MaxStale
+//@   property C01 C02 C12
+//@   pure
+//@   ensures valid == has(d, "max-stale") && (valid ==> string(dur) == get(d, "max-stale"))     # name: reads-max-stale
+//@ func (CCRequestDirectives).NoCache
+//@   property C02 C12
+//@   pure
+//@   ensures result == has(d, "no-cache")        # name: reads-no-cache
+//@ func (CCRequestDirectives).NoStore
+//@   property C06 C12
+//@   pure
+//@   ensures result == has(d, "no-store")        # name: reads-no-store
+//@ func (CCRequestDirectives).OnlyIfCached
+//@   property C01 C18 C12
+//@   pure
+//@   ensures result == has(d, "only-if-cached")  # name: reads-only-if-cached
+//@ func (CCRequestDirectives).StaleIfError
+//@   property C13 C12
+//@   pure
+//@   ensures valid == ccValid(d, "stale-if-error") && (valid ==> dur == ccDur(d, "stale-if-error")) && (!valid ==> dur == 0)   # name: reads-stale-if-error
+//@ func (CCResponseDirectives).MaxAge
+//@   property C01 C12
+//@   pure
+//@   ensures valid == ccValid(d, "max-age") && (valid ==> dur == ccDur(d, "max-age")) && (!valid ==> dur == 0)   # name: reads-max-age
+//@ func (CCResponseDirectives).MaxAgePresent
+//@   property C01 C06 C12
+//@   pure
+//@   ensures result == has(d, "max-age")         # name: reads-max-age
+//@ func (CCResponseDirectives).MustRevalidate
+//@   property C02 C12 C13
+//@   pure
+//@   ensures result == has(d, "must-revalidate") # name: reads-must-revalidate
+//@ func (CCResponseDirectives).MustUnderstand
+//@   property C06 C12
+//@   pure
+//@   ensures result == has(d, "must-understand") # name: reads-must-understand
+//@ func (CCResponseDirectives).NoStore
+//@   property C06 C12
+//@   pure
+//@   ensures result == has(d, "no-store")        # name: reads-no-store
+//@ func (CCResponseDirectives).Public
+//@   property C01 C06 C12
+//@   pure
+//@   ensures result == has(d, "public")          # name: reads-public
+//@ func (CCResponseDirectives).Immutable
+//@   property C02 C12
+//@   pure
+//@   ensures result == has(d, "immutable")       # name: reads-immutable
+//@ func (CCResponseDirectives).StaleIfError
+//@   property C13 C12
+//@   pure
+//@   ensures valid == ccValid(d, "stale-if-error") && (valid ==> dur == ccDur(d, "stale-if-error")) && (!valid ==> dur == 0)   # name: reads-stale-if-error
+//@ func (CCResponseDirectives).StaleWhileRevalidate
+//@   property C01 C12 C20
+//@   pure
+//@   ensures valid == ccValid(d, "stale-while-revalidate") && (valid ==> dur == ccDur(d, "stale-while-revalidate")) && (!valid ==> dur == 0)   # name: reads-swr
+
+// ---- C01: freshness lifetime ---------------------------------------------------------
+// Parsed Expires (http.ParseTime, plus the documented opt-in "UTC" compatibility parser).
+//@ spec func expValid(s string) bool
+//@ spec func expTime(s string) time.Time
+//@ axiom expires-http: forall s string :: validHTTPTime(s) ==> expValid(s) && expTime(s) == httpTime(s)
+//@ axiom expires-nonempty: forall s string :: expValid(s) ==> len(s) > 0
+// statuses for which RFC 9110 §15.1 allows heuristic freshness (plus 304, which is never stored)
+//@ spec func heurStatus(c int) bool = c == 200 || c == 203 || c == 204 || c == 206 || c == 300 || c == 301 || c == 304 || c == 308 || c == 404 || c == 405 || c == 410 || c == 414 || c == 501
+// statuses this cache documents as heuristically cacheable (completeness, C09)
+//@ spec func heurDocumented(c int) bool = c == 200 || c == 203 || c == 206 || c == 301 || c == 304 || c == 308 || c == 404 || c == 405 || c == 410 || c == 414 || c == 501
+//@ spec func expiresLife(h http.Header, date time.Time) time.Duration = ite(expValid(hget(h, "Expires")) && ns(expTime(hget(h, "Expires"))) > ns(date), tsub(expTime(hget(h, "Expires")), date), 0)
+// "at most 10% of Date - Last-Modified", read at one-second granularity (DESIGN Appendix A)
+//@ spec func tenthPlus1s(d time.Duration) time.Duration = d/10 + sec # opaque
+//@ lemma tenthPlus1s-nonneg: forall d time.Duration :: d >= 0 ==> tenthPlus1s(d) >= 0
+//@   reveal tenthPlus1s
+//@   property C01
+//@ spec func heurUpper(h http.Header, date time.Time) time.Duration = ite(validHTTPTime(hget(h, "Last-Modified")) && ns(httpTime(hget(h, "Last-Modified"))) < ns(date), tenthPlus1s(tsub(date, httpTime(hget(h, "Last-Modified")))), 0)
+//@ spec func lifeRest(h http.Header, status int, hs Arr[string, bool], date time.Time) time.Duration = ite(hget(h, "Expires") != "", expiresLife(h, date), ite(heurStatus(status) || hs["public"], heurUpper(h, date), 0))
+//@ spec func lifeUpper(h http.Header, status int, hs Arr[string, bool], vs Arr[string, string], date time.Time) time.Duration = ite(ccValidA(hs, vs, "max-age"), ccDurA(vs, "max-age"), lifeRest(h, status, hs, date))
+//@ spec func reqCap(l time.Duration, hq Arr[string, bool], vq Arr[string, string]) time.Duration = ite(ccValidA(hq, vq, "max-age"), min(l, ccDurA(vq, "max-age")), l)
+//@ spec func minFreshOK(age time.Duration, life time.Duration, hq Arr[string, bool], vq Arr[string, string]) bool = !ccValidA(hq, vq, "min-fresh") || satadd(age, ccDurA(vq, "min-fresh")) <= life
+//@ spec func maxStaleOK(age time.Duration, life time.Duration, hq Arr[string, bool], vq Arr[string, string]) bool = hq["max-stale"] && (vq["max-stale"] == "" || (isDigits(vq["max-stale"]) && satsub(age, life) <= ccDurA(vq, "max-stale")))
+
+//@ func isHeuristicallyCacheableCode
+//@   property C01 C06 C09
+//@   pure
+//@   ensures result ==> heurStatus(code)          # name: only-rfc-statuses
+//@   ensures heurDocumented(code) ==> result      # name: documented-statuses   props: C09
+
+//@ func (*Response).DateHeader
+//@   property C01 C11
+//@   pure
+//@   requires r != nil && r.Data != nil
+//@   ensures result == dateOf(r.Data.Header)      # name: parsed-date
+
+// The opt-in compatibility parser (environment switch + time.Parse) DEFINES which
+// non-HTTP-date Expires values count as valid: trusted link to expValid/expTime.
+//@ func parseHTTPDateCompat
+//@   trusted
+//@   pure
+//@   ensures !validHTTPTime(dateStr) ==> ((err == nil && ns(t) != 0) == expValid(dateStr))
+//@   ensures !validHTTPTime(dateStr) && err == nil && ns(t) != 0 ==> t == expTime(dateStr)
+
+//@ func (*Response).ExpiresHeader
+//@   property C01
+//@   pure
+//@   requires r != nil && r.Data != nil
+//@   ensures found == (hget(r.Data.Header, "Expires") != "")                                 # name: found-iff
+//@   ensures valid == expValid(hget(r.Data.Header, "Expires"))                               # name: valid-iff
+//@   ensures valid ==> t == expTime(hget(r.Data.Header, "Expires"))                          # name: value
+
+//@ func heuristicFreshness
+//@   property C01
+//@   pure
+//@   reveal tenthPlus1s
+//@   ensures result >= 0 && result <= heurUpper(h, date)      # name: at-most-tenth
+
+//@ iface FreshnessCalculator.CalculateFreshness(f, entry, reqCC, resCC)
+//@   property C01 C02 C09 C11 C13
+//@   requires entry != nil && entry.Data != nil
+//@   let hdr = entry.Data.Header
+//@   let date = dateOf(hdr)
+//@   let a0 = initialAge(hget(hdr, "Age"), date, entry.RequestedAt, entry.ReceivedAt)
+//@   let L = reqCap(lifeUpper(hdr, entry.Data.StatusCode, hasArr(resCC), valArr(resCC), date), hasArr(reqCC), valArr(reqCC))
+//@   assigns now
+//@   fresh
+//@   ensures result != nil && result.Age != nil && fresh(result.Age)                                  # name: shape
+//@   let reqZero = ccValid(reqCC, "max-age") && ccDur(reqCC, "max-age") == 0
+//@   ensures !reqZero ==> result.Age.Value >= ageAt(a0, entry.ReceivedAt, old(now))                  # name: age-lower
+//@   ensures (isDigits(hget(hdr, "Age")) || hget(hdr, "Age") == "") ==> result.Age.Value <= ageAt(a0, entry.ReceivedAt, result.Age.Timestamp)   # name: age-upper
+//@   ensures reqZero ==> result.IsStale && result.UsefulLife == 0 && result.Age.Value == 0          # name: request-max-age-zero
+//@   ensures ns(result.Age.Timestamp) >= ns(old(now)) && ns(result.Age.Timestamp) <= ns(now)         # name: timestamp
+//@   ensures result.UsefulLife >= 0 && result.UsefulLife <= L                                        # name: lifetime-upper
+//@   ensures !result.IsStale ==> (result.Age.Value < result.UsefulLife && minFreshOK(result.Age.Value, result.UsefulLife, hasArr(reqCC), valArr(reqCC))) || maxStaleOK(result.Age.Value, result.UsefulLife, hasArr(reqCC), valArr(reqCC))   # name: fresh-means
+
+//@ func (*freshnessCalculator).CalculateFreshness
+//@   implements FreshnessCalculator.CalculateFreshness
+//@   requires f != nil && f.clock != nil
+
+// ---- parsing of the Cache-Control field (meaning of the text: C12) ------------------
+//@ axiom dirs-empty: forall k string :: !dirsHas("")[k]
+//@ func ParseCCRequestDirectives
+//@   trusted
+//@   pure
+//@   ensures hasArr(result) == dirsHas(ccText(header)) && valArr(result) == dirsVal(ccText(header))
+//@ func ParseCCResponseDirectives
+//@   trusted
+//@   pure
+//@   ensures hasArr(result) == dirsHas(ccText(header)) && valArr(result) == dirsVal(ccText(header))
+
+// unquote = ParseQuotedString (RFC 9110 §5.6.4); a no-cache directive is qualified iff its unquoted argument is non-empty
+//@ spec func unquote(s string) string
+//@ spec func unqualNoCacheA(hs Arr[string, bool], vs Arr[string, string]) bool = hs["no-cache"] && unquote(vs["no-cache"]) == ""
+//@ func ParseQuotedString
+//@   trusted
+//@   pure
+//@   ensures result == unquote(s)
+//@ func (CCResponseDirectives).NoCache
+//@   property C02 C12
+//@   pure
+//@   ensures present == has(d, "no-cache")                                   # name: present-iff
+//@   ensures present ==> string(fields) == unquote(get(d, "no-cache"))       # name: unquoted-argument
+//@   ensures !present ==> string(fields) == ""                               # name: empty-when-absent
+//@ func TrimmedCSVSeq
+//@   trusted
+//@   pure
+//@   ensures result != nil
+//@ func (RawCSVSeq).Value
+//@   property C02
+//@   pure
+//@   ensures valid == (len(s) != 0)                                          # name: valid-iff-nonempty
+//@   ensures valid ==> seq != nil                                            # name: seq-non-nil
+
+// ---- logging: reads only (C10) ------------------------------------------------------
+//@ func (*Logger).LogCacheHit
+//@   trusted
+//@   pure
+//@ func (*Logger).LogCacheMiss
+//@   trusted
+//@   pure
+//@ func (*Logger).LogCacheStale
+//@   trusted
+//@   pure
+//@ func (*Logger).LogCacheStaleIfError
+//@   trusted
+//@   pure
+//@ func (*Logger).LogCacheStaleRevalidate
+//@   trusted
+//@   pure
+//@ func (*Logger).LogCacheRevalidated
+//@   trusted
+//@   pure
+//@ func (*Logger).LogCacheBypass
+//@   trusted
+//@   pure
+//@ func (*Logger).LogCacheError
+//@   trusted
+//@   pure
+
+// ---- Age and status fields (C11) ----------------------------------------------------
+//@ spec func secsOf(d time.Duration) int = int(d / sec)
+//@ func SetAgeHeader
+//@   property C11 C13
+//@   requires resp != nil && resp.Header != nil && clock != nil && age != nil
+//@   assigns map(resp.Header), now
+//@   ensures ns(now) >= ns(old(now))
+//@   ensures mapUpdated(resp.Header, "Age", get(resp.Header, "Age"))                                         # name: only-age-changes
+//@   ensures len(get(resp.Header, "Age")) == 1                                                               # name: replaces
+//@   ensures hget(resp.Header, "Age") == itoa(secsOf(satadd(age.Value, max(tsub(now, age.Timestamp), 0))))  # name: value-saturating
+
+//@ spec func statusHdr() string = "X-Httpcache-Status"
+//@ spec func legacyHdr() string = "X-From-Cache"
+//@ func (CacheStatus).ApplyTo
+//@   property C11
+//@   requires header != nil
+//@   assigns map(header)
+//@   ensures hget(header, "X-Httpcache-Status") == s.Value && len(get(header, "X-Httpcache-Status")) == 1    # name: single-status
+//@   ensures s.Legacy != "" ==> hget(header, "X-From-Cache") == s.Legacy                                     # name: legacy-set
+//@   ensures forall k string :: k != "X-Httpcache-Status" && k != "X-From-Cache" ==> has(header, k) == old(has(header, k)) && get(header, k) == old(get(header, k))   # name: other-fields-unchanged
+
+// ---- interfaces used by the transport -----------------------------------------------
+//@ ghost var upstreamCalls int
+//@ ghost var lastUpstreamStatus int
+//@ ghost var lastUpstreamFailed bool
+
+//@ iface net/http.RoundTripper.RoundTrip(rt, req)
+//@   trusted
+//@   property C18
+//@   requires req != nil                                                      # name: req-non-nil
+//@   requires !dirsHas(ccText(req.Header))["only-if-cached"]                  # name: not-only-if-cached
+//@   assigns upstreamCalls, lastUpstreamStatus, lastUpstreamFailed
+//@   ensures upstreamCalls == old(upstreamCalls) + 1
+//@   ensures (result0 != nil && result0.Header != nil && result1 == nil) || (result0 == nil && result1 != nil)
+//@   ensures result0 != nil ==> fresh(result0) && fresh(result0.Header) && lastUpstreamStatus == result0.StatusCode
+//@   ensures lastUpstreamFailed == (result1 != nil)
+
+//@ iface ValidationResponseHandler.HandleValidationResponse(h, ctx, req, resp, err)
+//@   requires req != nil && ctx.Stored != nil && ctx.Stored.Data != nil && ctx.Stored.Data.Header != nil
+//@   requires ctx.Freshness != nil && ctx.Freshness.Age != nil
+//@   requires (resp != nil && resp.Header != nil && err == nil) || (resp == nil && err != nil)
+//@   assigns *
+//@   ensures upstreamCalls == old(upstreamCalls)
+//@   ensures (result0 != nil) != (result1 != nil)
+//@   ensures result1 != nil ==> result1 == err
+//@   ensures result0 != nil ==> result0 == ctx.Stored.Data || result0 == resp
+
+// ---- collaborator interfaces of the transport ---------------------------------------
+// `store` is the abstract content of the backing store (refined by C06/C08/C14 contracts).
+//@ ghost var storeWrites int
+
+//@ iface URLKeyer.URLKey(k, u)
+//@   pure
+//@   requires u != nil
+
+//@ iface RequestMethodChecker.IsRequestMethodUnderstood(c, req)
+//@   pure
+//@   requires req != nil
+//@   ensures result == (req.Method == "GET" && hget(req.Header, "Range") == "")
+
+//@ spec func allRefsNonNil(refs ResponseRefs) bool = forall i int :: 0 <= i && i < len(refs) ==> refs[i] != nil
+
+//@ iface ResponseCache.GetRefs(c, key)
+//@   pure
+//@   ensures result1 != nil ==> len(result0) == 0
+//@   ensures result1 == nil ==> allRefsNonNil(result0) && (len(result0) > 0 ==> fresh(result0))
+
+//@ iface ResponseCache.Get(c, key, req)
+//@   pure
+//@   ensures (result0 != nil) != (result1 != nil)
+//@   ensures result0 != nil ==> result0.Data != nil && result0.Data.Header != nil && fresh(result0) && fresh(result0.Data) && fresh(result0.Data.Header)
+
+//@ iface VaryMatcher.VaryHeadersMatch(m, entries, reqHdr)
+//@   requires allRefsNonNil(entries)
+//@   assigns elems(entries)
+//@   ensures allRefsNonNil(entries)
+//@   ensures result1 ==> 0 <= result0 && result0 < len(entries)
+
+//@ iface CacheabilityEvaluator.CanStoreResponse(e, resp, reqCC, resCC)
+//@   pure
+//@   requires resp != nil
+
+//@ iface ResponseStorer.StoreResponse(s, req, resp, urlKey, refs, reqTime, respTime, refIndex)
+//@   requires req != nil && resp != nil && resp.Header != nil
+//@   assigns storeWrites, map(resp.Header), elems(refs), now
+//@   ensures resp.Header != nil
+
+//@ iface CacheInvalidator.InvalidateCache(ci, reqURL, respHeader, refs, key)
+//@   requires reqURL != nil
+//@   assigns storeWrites
+
+// ---- C07: unsafe methods ----------------------------------------------------------------
+// methods registered as safe in the IANA HTTP Method Registry
+//@ spec func safeMethod(m string) bool = m == "GET" || m == "HEAD" || m == "OPTIONS" || m == "TRACE" || m == "PROPFIND" || m == "REPORT" || m == "SEARCH" || m == "QUERY" || m == "PRI"
+//@ func IsUnsafeMethod
+//@   property C07
+//@   pure
+//@   ensures !safeMethod(method) ==> result                                                           # name: unknown-token-is-unsafe
+//@   ensures (method == "GET" || method == "HEAD" || method == "OPTIONS" || method == "TRACE") ==> !result   # name: safe-core
+
+//@ func FixDateHeader
+//@   property C01
+//@   requires h != nil
+//@   assigns map(h)
+//@   ensures validHTTPTime(old(hget(h, "Date"))) && ns(httpTime(old(hget(h, "Date")))) != 0 ==> mapUnchanged(h) && !result     # name: valid-date-kept
